@@ -31,7 +31,7 @@ RULE = ("one evaluation = one seeded history (<= 14 operations, <= 18 files in 3
         "separately, and compared with the model. non-trivial = >= 1 referrer produced and >= 1 comparison; distinct = distinct "
         "event-log digests")
 STATE_MEASURE = "distinct (producer, chain depth, mapping kind, feature kind, access kind / file-system situation) tuples"
-PROBES = ["child_reexported_after_equal_count_reselection", "result_mutated_in_place", "result_read_only", "chain_depth_3", "chain_depth_4", "child_export", "child_export_of_basin_file", "basin_only_export", "export_with_stored",
+PROBES = ["two_referrers_read_traces_interleaved", "child_reexported_after_equal_count_reselection", "result_mutated_in_place", "result_read_only", "chain_depth_3", "chain_depth_4", "child_export", "child_export_of_basin_file", "basin_only_export", "export_with_stored",
           "unfiltered_export", "box_filter", "map_superset", "map_permutation", "map_crosses_chunk", "two_basins", "two_basins_shared_map",
           "internal_basin", "explicit_mapname", "basin_feats_restricted", "precedence_checked", "moved_together",
           "moved_ref_only", "abs_location_still_resolves", "origin_deleted", "origin_renamed", "origin_replaced",
@@ -1232,9 +1232,30 @@ class World:
         if ds is None:
             return
         ctx.state("read", F.depth, fkind(f), acc, "mapped" if mapped_route else "direct", F.fs)
+        other = None
+        if f == "trace" and mapped_route:
+            # a second referrer that also gets its traces through a mapped basin is in use at the same time
+            cand = [self.files[i] for i in self.usable() if self.files[i] is not F and self.mapped_route(self.files[i], "trace")
+                    and self.cands(self.files[i], "trace", must=True)]
+            if cand:
+                G = cand[op["aseed"] % len(cand)]
+                try:
+                    import dclab
+                    with warnings.catch_warnings():
+                        warnings.simplefilter("ignore")
+                        other = dclab.new_dataset(G.path)
+                except Exception:
+                    other = None
         try:
             def fetch():
                 obj = ds[f]
+                if other is not None:
+                    try:
+                        ot = other["trace"]
+                        [ot[nm][0] for nm in TRACES if nm in ot]
+                        ctx.probe("two_referrers_read_traces_interleaved")
+                    except Exception:
+                        pass
                 if f == "trace":
                     objs = {nm: obj[nm] for nm in TRACES}
                 else:
@@ -1339,10 +1360,12 @@ class World:
                 self.report("C07.access", f"{F.name} (n={n}): ds['{f}'] accessed with {acc} ({_fmt_index(index)}) differs from the origin data "
                                           f"at the mapped events; delivered {str(g0)[:200]}", sig)
         finally:
-            try:
-                ds.close()
-            except Exception:
-                pass
+            for d_ in (ds, other):
+                try:
+                    if d_ is not None:
+                        d_.close()
+                except Exception:
+                    pass
 
 
 def _fmt_index(index):
